@@ -100,7 +100,9 @@ func (fr *Frame) appendBuiltin(c *ssa.CallCommon, args []Val, rt types.Type) Val
 	newcap := vc.fresh("append.cap", "Int")
 	vc.assert("(>= " + newcap + " " + n + ")")
 	base := ite(fits, s.L[0], fresh)
-	off := ite(fits, s.L[1], "0")
+	// a relocated copy keeps the offset of the original within its (fresh) backing array: offsets are not
+	// observable by Go code, and an unconditional offset keeps the copy facts in index-normal form
+	off := s.L[1]
 	capv := ite(fits, s.L[3], newcap)
 	res := Val{Typ: rt, L: []string{vc.define("append.b", "Int", base), vc.define("append.o", "Int", off), vc.define("append.l", "Int", n), vc.define("append.c", "Int", capv)}}
 	if vc.flatStruct(et) {
@@ -154,7 +156,7 @@ func (fr *Frame) shifted(cur string, s Val, leafSort string) string {
 	vc := fr.vc
 	a := vc.fresh("append.copy", "(Array Int "+leafSort+")")
 	j := q(vc.freshName("j"))
-	vc.assume(fr.curR, "(forall (("+j+" Int)) (! (=> (and (<= 0 "+j+") (< "+j+" "+s.L[2]+")) (= (select "+a+" "+j+") (select (select "+cur+" "+s.L[0]+") (+ "+s.L[1]+" "+j+")))) :pattern ((select "+a+" "+j+"))))")
+	vc.assume(fr.curR, "(forall (("+j+" Int)) (! (=> (and (<= "+s.L[1]+" "+j+") (< "+j+" (+ "+s.L[1]+" "+s.L[2]+"))) (= (select "+a+" "+j+") (select (select "+cur+" "+s.L[0]+") "+j+"))) :pattern ((select "+a+" "+j+"))))")
 	return a
 }
 
@@ -178,7 +180,7 @@ func (fr *Frame) relocFacts(et types.Type, s, res Val, fits string) {
 			vc.family(fam, famSortFor(l.Sort, 1))
 			h := vc.lookup(fr.cur.heap, fam)
 			j := q(vc.freshName("j"))
-			vc.assume(fr.curR, "(=> (not "+fits+") (forall (("+j+" Int)) (! (=> (and (<= 0 "+j+") (< "+j+" "+s.L[2]+")) (= (select "+h+" ("+f+" "+res.L[0]+" "+j+")) (select "+h+" ("+f+" "+s.L[0]+" (+ "+s.L[1]+" "+j+"))))) :pattern ((select "+h+" ("+f+" "+res.L[0]+" "+j+"))))))")
+			vc.assume(fr.curR, "(=> (not "+fits+") (forall (("+j+" Int)) (! (=> (and (<= "+s.L[1]+" "+j+") (< "+j+" (+ "+s.L[1]+" "+s.L[2]+"))) (= (select "+h+" ("+f+" "+res.L[0]+" "+j+")) (select "+h+" ("+f+" "+s.L[0]+" "+j+")))) :pattern ((select "+h+" ("+f+" "+res.L[0]+" "+j+"))))))")
 		}
 	}
 }
